@@ -8,6 +8,14 @@ import PypyrModel.FmtHeap
 namespace Pypyr.C09
 open Pypyr Pypyr.FmtHeap
 
+/-- Decidable equality of results, so that concrete examples can be closed by `decide +kernel`. -/
+instance : DecidableEq (Except Exc Val) := fun a b =>
+  match a, b with
+  | .ok x, .ok y => if h : x = y then isTrue (by rw [h]) else isFalse (by intro h'; cases h'; exact h rfl)
+  | .error x, .error y => if h : x = y then isTrue (by rw [h]) else isFalse (by intro h'; cases h'; exact h rfl)
+  | .ok _, .error _ => isFalse (by intro h; cases h)
+  | .error _, .ok _ => isFalse (by intro h; cases h)
+
 /-- Element-wise relation between two lists of equal length. -/
 inductive All₂ {α β} (R : α → β → Prop) : List α → List β → Prop
   | nil : All₂ R [] []
